@@ -151,7 +151,7 @@ def _leaves(t: T):
             stack.append(x.args[1])
         elif x.op in ("upd", "listappend"):
             stack.append(x.args[0])
-        elif x.op == "loopvar" and len(x.args) >= 3 and isinstance(x.args[2], T):
+        elif x.op in ("loopvar", "loopout") and len(x.args) >= 3 and isinstance(x.args[2], T):
             stack.append(x.args[2])  # value on loop entry
         else:
             out.append(x)
@@ -623,6 +623,16 @@ def _reload_completeness(ctx):
                 written.add(attr)
         cfg = config_attrs(prog, A.ev, cls)
         missing = {}
+        # containers that load_data fills in place without creating them (created by __init__ or by an earlier load): entries of the
+        # previous data survive the reload
+        for (obj, attr), v in r.final.heap.items():
+            if obj is not r.self_term or attr in ("tags",):
+                continue
+            raw = mk("attr", r.self_term, attr)
+            if v is not raw and any(x is raw for x in _leaves(v)) and (attr in ext_reads or attr in cfg):
+                if any(x is not raw for x in _leaves(v)):
+                    continue   # re-created on some path: the existence-test rule below covers conditional creation
+                missing.setdefault(attr, "load_data itself (filled in place, never re-created)")
         stored_any = {a for e, a, k in self_stores(r)}
         for a in sorted((stored_any & ext_reads) - written - cfg):
             missing.setdefault(a, "the reduction algorithms (read from the constraints object)")
